@@ -154,6 +154,7 @@ fn ground_apply(val: &[T], t: &T) -> T {
 
 /// returns (impl observable, oracle failure, non-trivial)
 pub fn eval(c: &Case) -> (String, Option<String>, bool) {
+    crate::mark(&c.line());
     let r = match crate::catch(|| run_impl(c)) {
         Ok(r) => r,
         Err(site) => return (format!("PANIC {}", site), Some(format!("unification panicked at {}", site)), true),
